@@ -678,6 +678,7 @@ func (c *fileCtx) finish() []byte {
 }
 
 type report struct {
+	Ext    map[string]string         `json:"ext_files"` // original path (module cache) -> rewritten copy
 	Files  map[string]map[string]int `json:"files"`
 	Totals map[string]int            `json:"totals"`
 	Pkgs   []string                  `json:"packages"`
@@ -691,6 +692,7 @@ func main() {
 		rules    = flag.String("rules", "sched", "rule set: sched | fs | sched,fs")
 		simDir   = flag.String("sim", "/verif/sim", "directory with the simulator runtime packages")
 		fsNames  = flag.String("fsnames", "", "comma separated os.X / filepath.X names to interpose (fs rules)")
+		fnPkgs   = flag.String("fnentry-pkgs", "", "comma separated FULL import paths (dependencies included) that get only the fnentry rule")
 	)
 	flag.Parse()
 	if *out == "" || *pkgsFlag == "" {
@@ -700,6 +702,13 @@ func main() {
 	var patterns []string
 	for _, p := range strings.Split(*pkgsFlag, ",") {
 		patterns = append(patterns, "github.com/specterops/dawgs/"+strings.TrimSpace(p))
+	}
+	fnOnly := map[string]bool{}
+	for _, p := range strings.Split(*fnPkgs, ",") {
+		if p = strings.TrimSpace(p); p != "" {
+			fnOnly[p] = true
+			patterns = append(patterns, p)
+		}
 	}
 	cfg := &packages.Config{
 		Mode: packages.NeedName | packages.NeedFiles | packages.NeedCompiledGoFiles | packages.NeedSyntax |
@@ -728,7 +737,7 @@ func main() {
 			fsSet[n] = true
 		}
 	}
-	rep := report{Files: map[string]map[string]int{}, Totals: map[string]int{}}
+	rep := report{Files: map[string]map[string]int{}, Totals: map[string]int{}, Ext: map[string]string{}}
 	overlay := map[string]string{}
 	var errs []string
 	for _, p := range pkgs {
@@ -746,14 +755,18 @@ func main() {
 			c := &fileCtx{fset: p.Fset, file: f, tf: p.Fset.File(f.Pos()), src: src, info: p.TypesInfo,
 				sites: map[string]int{}, skip: map[ast.Node]bool{}, fsSet: fsSet}
 			c.buildParents()
-			if strings.Contains(*rules, "sched") {
-				c.schedRules()
-			}
-			if strings.Contains(*rules, "fs") {
-				c.fsRules()
-			}
-			if strings.Contains(*rules, "fnentry") {
+			if fnOnly[p.PkgPath] {
 				c.fnEntryRules()
+			} else {
+				if strings.Contains(*rules, "sched") {
+					c.schedRules()
+				}
+				if strings.Contains(*rules, "fs") {
+					c.fsRules()
+				}
+				if strings.Contains(*rules, "fnentry") {
+					c.fnEntryRules()
+				}
 			}
 			if len(c.edits) == 0 && len(c.errs) == 0 {
 				continue
@@ -761,13 +774,20 @@ func main() {
 			res := c.finish()
 			errs = append(errs, c.errs...)
 			rel, _ := filepath.Rel(*repo, name)
+			if strings.HasPrefix(rel, "..") {
+				rel = filepath.Join("_ext", p.PkgPath, filepath.Base(name))
+			}
 			dst := filepath.Join(*out, "src", rel)
 			os.MkdirAll(filepath.Dir(dst), 0o755)
 			if err := os.WriteFile(dst, res, 0o644); err != nil {
 				fmt.Fprintln(os.Stderr, "instr:", err)
 				os.Exit(2)
 			}
-			overlay[name] = dst
+			if strings.HasPrefix(rel, "_ext") {
+				rep.Ext[name] = dst // files under GOMODCACHE cannot be overlaid: the caller copies the module and uses a replace directive
+			} else {
+				overlay[name] = dst
+			}
 			rep.Files[rel] = c.sites
 			for k, v := range c.sites {
 				rep.Totals[k] += v
